@@ -94,7 +94,9 @@ def run(replay=None):
     rep.add_tlc(st4)
     qsh, st5 = grammar.enumerate_shapes('quant')        # ... and events with a reference to a name outside a quantifier binding it
     rep.add_tlc(st5)
-    dsh = dsh + qsh
+    wsh, st6 = grammar.enumerate_shapes('width')         # ... and disjunctions of width 3 and 4, with aliases
+    rep.add_tlc(st6)
+    dsh = dsh + qsh + rnd.sample(wsh, min(len(wsh), 400 if thorough else 120))
     nev = 0
     seen_ev = set()
     for sh in dsh:
@@ -112,6 +114,42 @@ def run(replay=None):
             except Exception:  # noqa  (e.g. duplicate channels: the constructor rejects it)
                 continue
             asts.append(('event built through the API: %s' % evobj, 'event', evobj))
+            nev += 1
+            # the same alternatives nested to the left / with the nested disjunction first (shapes no parser produces)
+            try:
+                from harness.checks.c11 import left_nest
+                from hpl.ast.events import HplEventDisjunction
+                alts = list(evobj.simple_events())
+                if len(alts) >= 3:
+                    ln = left_nest(evobj)
+                    asts.append(('event built through the API, nested to the left: %s' % ln, 'event', ln))
+                    mid = HplEventDisjunction(HplEventDisjunction(alts[0], alts[1]), HplEventDisjunction(alts[2], alts[3])) if len(alts) >= 4 \
+                        else HplEventDisjunction(alts[0], HplEventDisjunction(alts[1], alts[2]))
+                    asts.append(('event built through the API, other nesting: %s' % mid, 'event', mid))
+                    nev += 2
+            except Exception:  # noqa
+                pass
+    # every nesting of three and four alternatives, with aliases on all / some of them
+    from hpl.ast.events import HplEventDisjunction, HplSimpleEvent
+
+    def nestings(es):
+        if len(es) == 1:
+            return [es[0]]
+        out = []
+        for i in range(1, len(es)):
+            for l in nestings(es[:i]):
+                for r in nestings(es[i:]):
+                    out.append(('or', l, r))
+        return out
+
+    def build_nest(t):
+        if len(t) == 3 and t[0] == 'or':
+            return HplEventDisjunction(build_nest(t[1]), build_nest(t[2]))
+        return HplSimpleEvent.publish(t[0], alias=t[1])
+    for alts in ([('a', 'A'), ('b', 'B'), ('c', 'C')], [('a', 'A'), ('b', None), ('c', 'C'), ('d', 'D')], [('a', None), ('b', 'B'), ('c', 'C'), ('d', None)]):
+        for t in nestings(alts):
+            evobj = build_nest(t)
+            asts.append(('event built through the API: %s [%r]' % (evobj, t), 'event', evobj))
             nev += 1
     rep.count('events_built_through_the_api', nev)
     events, info = [], {}
